@@ -9,6 +9,7 @@ import (
 	"strings"
 
 	"github.com/nuetzliches/hookaido/internal/queue"
+	"github.com/nuetzliches/hookaido/internal/verifhook"
 )
 
 type Server struct {
@@ -186,8 +187,10 @@ func (s *Server) ServeHTTP(w http.ResponseWriter, r *http.Request) {
 			return
 		}
 		enqueued++
+		verifhook.Point("ingress.after_target_enqueue")
 	}
 
+	verifhook.Point("ingress.before_202")
 	w.Header().Set("Content-Type", "application/json")
 	w.WriteHeader(http.StatusAccepted)
 	_ = json.NewEncoder(w).Encode(map[string]string{"status": "queued"})
